@@ -20,7 +20,8 @@ type bodyInfo struct {
 	name       string
 	file       string
 	maxVersion int
-	hasVersion bool // has a field `Version int16`
+	hasVersion bool // has a field `Version int16` (or int)
+	versionType string
 	isResponse bool
 }
 
@@ -118,8 +119,9 @@ func discoverBodies(repo string) ([]bodyInfo, error) {
 			for _, fl := range st.Fields.List {
 				for _, n := range fl.Names {
 					if n.Name == "Version" {
-						if id, ok := fl.Type.(*ast.Ident); ok && id.Name == "int16" {
+						if id, ok := fl.Type.(*ast.Ident); ok && (id.Name == "int16" || id.Name == "int") {
 							bi.hasVersion = true
+							bi.versionType = id.Name
 						}
 					}
 				}
@@ -138,15 +140,255 @@ func genBodiesFile(repo string) ([]byte, int, error) {
 	}
 	var sb strings.Builder
 	sb.WriteString("//go:build verif\n\npackage sarama\n\n// Generated on every run from /repo's current source by symgo (engine/gen.go).\n\n")
-	sb.WriteString("type vBodyInfo struct {\n\tname string\n\tmaxVersion int16\n\tisResponse bool\n\tmk func(v int16) protocolBody\n}\n\n")
+	sb.WriteString("type vBodyInfo struct {\n\tname string\n\tmaxVersion int16\n\tisResponse bool\n\thasVersion bool\n\tmk func(v int16) protocolBody\n}\n\n")
 	sb.WriteString("var vBodies = []vBodyInfo{\n")
 	for _, b := range bodies {
 		mk := fmt.Sprintf("func(v int16) protocolBody { return new(%s) }", b.name)
 		if b.hasVersion {
-			mk = fmt.Sprintf("func(v int16) protocolBody { return &%s{Version: v} }", b.name)
+			mk = fmt.Sprintf("func(v int16) protocolBody { return &%s{Version: %s(v)} }", b.name, b.versionType)
 		}
-		fmt.Fprintf(&sb, "\t{%q, %d, %v, %s},\n", b.name, b.maxVersion, b.isResponse, mk)
+		fmt.Fprintf(&sb, "\t{%q, %d, %v, %v, %s},\n", b.name, b.maxVersion, b.isResponse, b.hasVersion, mk)
 	}
-	sb.WriteString("}\n")
+	sb.WriteString("}\n\n// vSetVersion sets the Version field of bodies that carry one.\nfunc vSetVersion(b protocolBody, v int16) {\n\tswitch x := b.(type) {\n")
+	for _, b := range bodies {
+		if b.hasVersion {
+			fmt.Fprintf(&sb, "\tcase *%s:\n\t\tx.Version = %s(v)\n", b.name, b.versionType)
+		}
+	}
+	sb.WriteString("\t}\n}\n")
 	return []byte(sb.String()), len(bodies), nil
+}
+
+// ---------- generated type-directed generators (used by the C09 round-trip harnesses) ----------
+
+type fillGen struct {
+	fset    *token.FileSet
+	types   map[string]ast.Expr // package-level type declarations
+	hooks   map[string]bool     // vGenHook_<T> defined by the harness
+	done    map[string]bool
+	queue   []string
+	sb      strings.Builder
+	imports map[string]bool
+}
+
+func parseTypes(repo string) (*token.FileSet, map[string]ast.Expr, error) {
+	fset := token.NewFileSet()
+	files, _ := filepath.Glob(filepath.Join(repo, "*.go"))
+	sort.Strings(files)
+	types := map[string]ast.Expr{}
+	for _, f := range files {
+		if strings.HasSuffix(f, "_test.go") {
+			continue
+		}
+		src, err := os.ReadFile(f)
+		if err != nil {
+			return nil, nil, err
+		}
+		head := string(src[:min(len(src), 400)])
+		if strings.Contains(head, "go:build") && strings.Contains(head, "functional") {
+			continue
+		}
+		af, err := parser.ParseFile(fset, f, src, 0)
+		if err != nil {
+			return nil, nil, err
+		}
+		for _, d := range af.Decls {
+			gd, ok := d.(*ast.GenDecl)
+			if !ok || gd.Tok != token.TYPE {
+				continue
+			}
+			for _, sp := range gd.Specs {
+				ts := sp.(*ast.TypeSpec)
+				types[ts.Name.Name] = ts.Type
+			}
+		}
+	}
+	return fset, types, nil
+}
+
+func harnessHooks(harnessDir string) map[string]bool {
+	hooks := map[string]bool{}
+	files, _ := filepath.Glob(filepath.Join(harnessDir, "sarama", "*.go"))
+	fset := token.NewFileSet()
+	for _, f := range files {
+		af, err := parser.ParseFile(fset, f, nil, 0)
+		if err != nil {
+			continue
+		}
+		for _, d := range af.Decls {
+			if fd, ok := d.(*ast.FuncDecl); ok && fd.Recv == nil && strings.HasPrefix(fd.Name.Name, "vGenHook_") {
+				hooks[strings.TrimPrefix(fd.Name.Name, "vGenHook_")] = true
+			}
+		}
+	}
+	return hooks
+}
+
+var basicGen = map[string]string{
+	"int8": "vInt8", "int16": "vInt16", "int32": "vInt32", "int64": "vInt64", "int": "vGenInt",
+	"uint8": "vByte", "byte": "vByte", "uint16": "vUint16", "uint32": "vUint32", "uint64": "vUint64",
+	"bool": "vBool", "string": "vGenString",
+}
+
+// genExpr returns Go code (an expression) producing a value of type e; d is the depth variable name.
+func (g *fillGen) genExpr(e ast.Expr, label string) (string, bool) {
+	switch t := e.(type) {
+	case *ast.Ident:
+		if fn, ok := basicGen[t.Name]; ok {
+			return fmt.Sprintf("%s(%q)", fn, label), true
+		}
+		decl, ok := g.types[t.Name]
+		if !ok {
+			return "", false
+		}
+		if g.hooks[t.Name] {
+			return fmt.Sprintf("(*vGenHook_%s(d-1))", t.Name), true
+		}
+		switch u := decl.(type) {
+		case *ast.StructType:
+			g.need(t.Name)
+			return fmt.Sprintf("(*vGen_%s(d-1))", t.Name), true
+		case *ast.Ident:
+			if u.Name == "int" {
+				// enumerations declared over int travel as one byte
+				return fmt.Sprintf("%s(vInt8(%q))", t.Name, label), true
+			}
+			if inner, ok := g.genExpr(u, label); ok {
+				return fmt.Sprintf("%s(%s)", t.Name, inner), true
+			}
+		case *ast.ArrayType, *ast.MapType:
+			if inner, ok := g.genExpr(u, label); ok {
+				return fmt.Sprintf("%s(%s)", t.Name, inner), true
+			}
+		}
+		return "", false
+	case *ast.StarExpr:
+		if id, ok := t.X.(*ast.Ident); ok {
+			if _, isBasic := basicGen[id.Name]; isBasic {
+				inner, _ := g.genExpr(id, label)
+				return fmt.Sprintf("func() *%s { if vChoose(%q, 2) == 0 { return nil }; x := %s; return &x }()", id.Name, label+".nil", inner), true
+			}
+			if decl, ok := g.types[id.Name]; ok {
+				if g.hooks[id.Name] {
+					return fmt.Sprintf("func() *%s { if d <= 0 || vChoose(%q, 2) == 0 { return nil }; return vGenHook_%s(d-1) }()", id.Name, label+".nil", id.Name), true
+				}
+				if _, isStruct := decl.(*ast.StructType); isStruct {
+					g.need(id.Name)
+					return fmt.Sprintf("func() *%s { if d <= 0 || vChoose(%q, 2) == 0 { return nil }; return vGen_%s(d-1) }()", id.Name, label+".nil", id.Name), true
+				}
+			}
+		}
+		return "", false
+	case *ast.ArrayType:
+		if t.Len != nil {
+			return "", false
+		}
+		ts := exprString(g.fset, e)
+		if id, ok := t.Elt.(*ast.Ident); ok && (id.Name == "byte" || id.Name == "uint8") {
+			return fmt.Sprintf("vGenBytes(%q)", label), true
+		}
+		inner, ok := g.genElem(t.Elt, label+"[]")
+		if !ok {
+			return "", false
+		}
+		return fmt.Sprintf("func() %s { n := vGenLen(%q, d); if n < 0 { return nil }; out := make(%s, 0, n); for i := 0; i < n; i++ { out = append(out, %s) }; return out }()", ts, label, ts, inner), true
+	case *ast.MapType:
+		ts := exprString(g.fset, e)
+		k, ok1 := g.genExpr(t.Key, label+".key")
+		v, ok2 := g.genElem(t.Value, label+".val")
+		if !ok1 || !ok2 {
+			return "", false
+		}
+		return fmt.Sprintf("func() %s { n := vGenLen(%q, d); if n < 0 { return nil }; out := make(%s, n); for i := 0; i < n; i++ { k := %s; if _, dup := out[k]; dup { vAssume(false) }; out[k] = %s }; return out }()", ts, label, ts, k, v), true
+	case *ast.SelectorExpr:
+		s := exprString(g.fset, e)
+		switch s {
+		case "time.Duration":
+			g.imports["time"] = true
+			return fmt.Sprintf("vGenDuration(%q)", label), true
+		case "time.Time":
+			g.imports["time"] = true
+			return fmt.Sprintf("vGenTime(%q)", label), true
+		}
+		return "", false
+	}
+	return "", false
+}
+
+// genElem is genExpr for elements of collections: pointers are never nil there.
+func (g *fillGen) genElem(e ast.Expr, label string) (string, bool) {
+	if st, ok := e.(*ast.StarExpr); ok {
+		if id, ok := st.X.(*ast.Ident); ok {
+			if decl, ok := g.types[id.Name]; ok {
+				if g.hooks[id.Name] {
+					return fmt.Sprintf("vGenHook_%s(d-1)", id.Name), true
+				}
+				if _, isStruct := decl.(*ast.StructType); isStruct {
+					g.need(id.Name)
+					return fmt.Sprintf("vGen_%s(d-1)", id.Name), true
+				}
+			}
+		}
+	}
+	return g.genExpr(e, label)
+}
+
+func (g *fillGen) need(name string) {
+	if !g.done[name] {
+		g.done[name] = true
+		g.queue = append(g.queue, name)
+	}
+}
+
+func (g *fillGen) emitStruct(name string) {
+	st := g.types[name].(*ast.StructType)
+	fmt.Fprintf(&g.sb, "func vGen_%s(d int) *%s {\n\tx := &%s{}\n", name, name, name)
+	for _, f := range st.Fields.List {
+		if len(f.Names) == 0 {
+			continue // embedded fields are left zero
+		}
+		for _, n := range f.Names {
+			if n.Name == "_" {
+				continue
+			}
+			code, ok := g.genExpr(f.Type, name+"."+n.Name)
+			if !ok {
+				fmt.Fprintf(&g.sb, "\t// %s: not generated (%s)\n", n.Name, exprString(g.fset, f.Type))
+				continue
+			}
+			fmt.Fprintf(&g.sb, "\tx.%s = %s\n", n.Name, code)
+		}
+	}
+	fmt.Fprintf(&g.sb, "\treturn x\n}\n\n")
+}
+
+func genFillFile(repo, harnessDir string, bodies []bodyInfo) ([]byte, error) {
+	fset, types, err := parseTypes(repo)
+	if err != nil {
+		return nil, err
+	}
+	g := &fillGen{fset: fset, types: types, hooks: harnessHooks(harnessDir), done: map[string]bool{}, imports: map[string]bool{}}
+	for _, b := range bodies {
+		if _, ok := types[b.name].(*ast.StructType); ok && !g.hooks[b.name] {
+			g.need(b.name)
+		}
+	}
+	for len(g.queue) > 0 {
+		n := g.queue[0]
+		g.queue = g.queue[1:]
+		g.emitStruct(n)
+	}
+	var out strings.Builder
+	out.WriteString("//go:build verif\n\npackage sarama\n\n// Generated on every run from /repo's current source by symgo (engine/gen.go): type-directed\n// generators of arbitrary bounded values, one per struct type reachable from a protocol body.\n\n")
+	out.WriteString("var vGenBodies = map[string]func(d int) protocolBody{\n")
+	for _, b := range bodies {
+		if g.hooks[b.name] {
+			fmt.Fprintf(&out, "\t%q: func(d int) protocolBody { return vGenHook_%s(d) },\n", b.name, b.name)
+		} else if g.done[b.name] {
+			fmt.Fprintf(&out, "\t%q: func(d int) protocolBody { return vGen_%s(d) },\n", b.name, b.name)
+		}
+	}
+	out.WriteString("}\n\n")
+	out.WriteString(g.sb.String())
+	return []byte(out.String()), nil
 }
